@@ -69,7 +69,10 @@ func runSeqIndex(p *core.Program, r *core.Report) {
 					obs = append(obs, ob{x.X, x.Index, "array-index"})
 				}
 			case *ssa.Index:
-				if _, isConst := constInt(x.Index); !isConst {
+				if isStringType(x.X.Type()) {
+					// s[i] on a string
+					obs = append(obs, ob{x.X, x.Index, "index"})
+				} else if _, isConst := constInt(x.Index); !isConst {
 					obs = append(obs, ob{x.X, x.Index, "array-index"})
 				}
 			case *ssa.Lookup:
